@@ -28,10 +28,9 @@ fn case_variant(rng: &mut Rng, s: &str) -> String {
 fn parse_spec(text: &str) -> Option<Result<u64, ()>> {
   let digits: String = text.chars().take_while(|c| c.is_ascii_digit() || *c == '.').collect();
   let suffix: String = text.chars().skip_while(|c| c.is_ascii_digit() || *c == '.').collect();
-  if !suffix.is_ascii() {
-    return None;
-  }
-  let mult = UNITS.iter().find(|(u, _)| *u == suffix.to_ascii_lowercase()).map(|(_, k)| *k);
+  // "every letter case": a spelling is a unit when lower-casing it gives the unit (so the Kelvin sign is a `k`, and a
+  // dotless i is not an `i`)
+  let mult = UNITS.iter().find(|(u, _)| *u == suffix.to_lowercase()).map(|(_, k)| *k);
   let dots = digits.matches('.').count();
   let ndig = digits.chars().filter(|c| c.is_ascii_digit()).count();
   if dots > 1 || ndig == 0 || mult.is_none() {
@@ -134,6 +133,12 @@ pub fn run(ctx: &Ctx) -> Report {
         texts.push(format!("{n}{}", case_variant(&mut rng, u)));
       }
     }
+    // shapes a hand-written splitter gets wrong: digits after or inside the unit, a decimal comma, no integer part,
+    // letters whose case mapping is not ASCII, white space
+    for t in ["kib16", "16kib0", "1k6ib", "1kib.5", "b7", "1,5mib", "0,5MiB", "16,384", ".5mib", ".25kib", ".5", ".5b", "5.", "5.kib", "16k\u{131}b", "5byte\u{17f}", "1\u{212a}ib", "1\u{212a}IB",
+      "16 kib", "16kib ", " 16kib", "16\tkib", "1_000", "1e3", "1e3kib", "0x10", "+5", "-5", "5kib5kib", "５kib", "1.5.kib", "..5", "1..5"] {
+      texts.push(t.to_string());
+    }
     for _ in 0..ctx.n(3000, 200_000) {
       let (u, k) = *rng.pick(&UNITS);
       let u = case_variant(&mut rng, u);
@@ -210,6 +215,13 @@ pub fn run(ctx: &Ctx) -> Report {
       texts.push((0..len).map(|_| *rng.pick(&alphabet)).collect());
     }
     // display values
+    for i in 0..6u32 {
+      // just below the next unit: 1000..1023 of a unit stay in that unit
+      for m in [999u64, 1000, 1001, 1010, 1023] {
+        values.push(m << (10 * i));
+        values.push((m << (10 * i)) + 1);
+      }
+    }
     values.extend_from_slice(&[0, 1, 2, 10, 100, 999, 1000, 1023, 1024, 1025, 1029, 1030, 1034, 1035, 1536, u64::MAX, u64::MAX - 1, 1 << 63, (1 << 53) + 1]);
     for i in 1..=6u32 {
       let unit = 1u64 << (10 * i);
